@@ -4,7 +4,7 @@ import VM.Cache
     call / executor run / setup / fork (deep copy) / restart-from-cache.
 
     H <id> <n>
-    N <setup 0|1> <failx 0|1> <usearg 0|1> <pred>*        node i returns ("n<i>", *args); args = values of
+    N <setup 0|1> <failx 0|1> <usearg 0|1> <retnone 0|1> <pred>*   node i returns ("n<i>", *args) or None; args = values of
                                                            preds (+ x, y when usearg); failx: raises when x == 13
     O <inst> call <k> <sel>^k <na> <value>^na             DAG call / executor run over selection `sel`
     O <inst> setup <k> <sel>^k
@@ -35,26 +35,28 @@ structure NSpec where
   setup : Bool
   failx : Bool
   usearg : Bool
+  retNone : Bool        -- the function returns None (a legitimate result, e.g. a side-effect-only setup node)
   preds : List Nat
 
 def mkInterp (specs : Array NSpec) : Interp Val := fun f args _ =>
   match f.toNat? with
   | none => .error .usage
   | some i =>
-    let sp := specs.getD i ⟨false, false, false, []⟩
+    let sp := specs.getD i ⟨false, false, false, false, []⟩
     let x := if sp.usearg then args.getD (args.length - 2) .none else .none
     if sp.failx && sp.usearg && Val.beq x (.int 13) then .error (.node i)
+    else if sp.retNone then .ok .none
     else .ok (.tuple (.str s!"n{i}" :: args))
 
 def mkDag (specs : Array NSpec) : Dag Val :=
   let n := specs.size
   { nodes := List.range n,
     recOf := fun i =>
-      let sp := specs.getD i ⟨false, false, false, []⟩
+      let sp := specs.getD i ⟨false, false, false, false, []⟩
       { fn := toString i,
         args := sp.preds.map (fun p => (⟨p, []⟩ : Ref)) ++ (if sp.usearg then [⟨n, []⟩, ⟨n + 1, []⟩] else []),
         kwargs := [], active := none },
-    isSetup := fun i => (specs.getD i ⟨false, false, false, []⟩).setup,
+    isSetup := fun i => (specs.getD i ⟨false, false, false, false, []⟩).setup,
     interp := mkInterp specs,
     params := [n, n + 1] }
 
@@ -84,7 +86,8 @@ def main : IO Unit := do
       let mut specs : Array NSpec := #[]
       for j in [0:n] do
         match toks (lines[i + 1 + j]!) with
-        | "N" :: su :: fx :: ua :: ps => specs := specs.push ⟨su == "1", fx == "1", ua == "1", ps.filterMap String.toNat?⟩
+        | "N" :: su :: fx :: ua :: rn :: ps =>
+          specs := specs.push ⟨su == "1", fx == "1", ua == "1", rn == "1", ps.filterMap String.toNat?⟩
         | _ => pure ()
       let dag := mkDag specs
       let res0 : Results Val := fun x => if x = n + 1 then some (.int 7) else none
